@@ -518,3 +518,42 @@ CONTRACTS.update({
                  ("nothing_removed", "all(e in self.graph.g_edges for e in old(self.graph.g_edges))")],
     ),
 })
+
+
+# ---------------------------------------------------------------- graph construction: static partitioning of one rank / flattening
+OBJ_CLASSES["FlowGraph"]["metrics"] = "Optional[MetricsF]"
+CONTRACTS.update({
+    "MetricsF.get_merger_init_ranks": dict(params=["self", "tensor", "ranks"], returns="Optional[List[str]]", assumed=True, observer=True),
+    "FlowGraph.__build_static_part": dict(
+        kinds={"tensor": "TensorF", "partitioning": "Tuple[str, ...]"},
+        requires=["len(partitioning) >= 1"],
+        modifies=["self.graph.g_edges[]"],
+        local_kinds={"swizzle_node": "Node"},
+        ensures_env="exit",
+        ensures=[
+            ("split_or_flatten_feeds_the_partition_node",
+             "part_node == PartNode(root, partitioning) and root == tensor.root_name() and "
+             "implies(len(partitioning) == 1, (RankNode(root, partitioning[0]), part_node) in self.graph.g_edges) and "
+             "implies(len(partitioning) > 1, (swizzle_node, part_node) in self.graph.g_edges and isinstance(swizzle_node, SwizzleNode) "
+             "        and cast(SwizzleNode, swizzle_node).tensor == root and cast(SwizzleNode, swizzle_node).type_ == 'partitioning')"),
+            ("every_resulting_rank_comes_after_the_partition_node",
+             "all((part_node, RankNode(root, part.partition_names(partitioning, False)[d])) in self.graph.g_edges "
+             "    for d in range(len(part.partition_names(partitioning, False))))"),
+            ("graphics_after_static_partitioning", "(part_node, OtherNode('Graphics')) in self.graph.g_edges"),
+            ("nothing_removed", "all(e in self.graph.g_edges for e in old(self.graph.g_edges))"),
+        ],
+        loops={
+            0: dict(idx="k0", modifies=["self.graph.g_edges[]"],
+                    inv=[("mono0", "all(e in self.graph.g_edges for e in old(self.graph.g_edges))")]),
+            1: dict(idx="k1", modifies=["self.graph.g_edges[]"],
+                    inv=[("mono1", "all(e in self.graph.g_edges for e in old(self.graph.g_edges))"),
+                         ("swizzle_edge_kept", "(swizzle_node, part_node) in self.graph.g_edges")]),
+            2: dict(idx="k2", modifies=["self.graph.g_edges[]"],
+                    inv=[("mono2", "all(e in self.graph.g_edges for e in old(self.graph.g_edges))"),
+                         ("feed", "implies(len(partitioning) == 1, (RankNode(root, partitioning[0]), part_node) in self.graph.g_edges) and "
+                                  "implies(len(partitioning) > 1, (swizzle_node, part_node) in self.graph.g_edges and isinstance(swizzle_node, SwizzleNode) "
+                                  "and cast(SwizzleNode, swizzle_node).tensor == root and cast(SwizzleNode, swizzle_node).type_ == 'partitioning')"),
+                         ("res", "all((part_node, RankNode(root, part.partition_names(partitioning, False)[d])) in self.graph.g_edges for d in range(k2))")]),
+        },
+    ),
+})
